@@ -1420,6 +1420,37 @@ def rel_walk(rendered, plain):
     return prob, out, a, b
 
 
+def find_node(text, head):
+    """(start, end) of the first `(head …)` element of the text"""
+    i = text.find('(' + head + ' ')
+    if i < 0:
+        return None
+    depth, j = 0, i
+    while True:
+        ch = text[j]
+        if ch in '"`':
+            j += 1
+            while text[j] != ch:
+                j += 2 if text[j] == '\\' else 1
+        elif ch == '(':
+            depth += 1
+        elif ch == ')':
+            depth -= 1
+            if depth == 0:
+                return i, j + 1
+        j += 1
+
+
+def fold_parts(text):
+    """(outer text with the AggFold replaced by its zero, seq_op text, comb_op text, accumulator names) of a text with ONE AggFold"""
+    span = find_node(text, 'AggFold')
+    if span is None:
+        return None
+    el = top_elements(text[span[0]:span[1]])
+    acc, acc2, zero, seq, comb = el[1], el[2], el[4], el[5], el[6]
+    return text[:span[0]] + zero + text[span[1]:], seq, comb, (acc, acc2)
+
+
 def ensure_reader_built():
     """the driver imports Model/ExprIRRead.lean, which no Props module imports: `lake build <Props>` alone would leave a stale
     reader behind after an edit (the driver would then answer from the old olean).  Cheap when up to date."""
@@ -1476,8 +1507,16 @@ class C35(Prop):
                    '(StreamMap/Filter/Fold bodies are not blocks); with an eager Let and a zero-iteration stream the engine would '
                    'evaluate (and could fail on) a binding the inlined IR never evaluates — not visible in this model, not claimed',
                    'variable names built by users never start with __cse_',
-                   'scan-context nodes (ApplyScanOp, StreamAggScan, AggLet True), AggArrayPerElement, TableIR/MatrixIR children and randomness are '
-                   'not generated; AggGroupBy keys are int32 / bool (the model decides key equality for scalars only); '
+                   'boundary of the generated language, by the node classes of hail/ir that override a renderable_* hook (new_block / bindings / '
+                   'agg_bindings / scan_bindings / uses_agg_context): GENERATED — If, Let, AggLet(False), StreamMap, StreamFilter, StreamFold, '
+                   'StreamAgg, AggFilter, AggExplode, AggGroupBy, ApplyAggOp(Max, Collect), AggFold(False) (cut into zero / seq_op / comb_op, each '
+                   'checked in the scope AggFold._compute_type gives it), TableParallelize, TableMapRows, TableFilter (+ TableRange, TableCollect, '
+                   'TableCount, TableGetGlobals); NOT generated, no statement: every scan context (ApplyScanOp, StreamAggScan, AggLet True, '
+                   'AggFold True, scan_bindings of TableMapRows / MatrixMapRows / MatrixMapCols), AggArrayPerElement, TailLoop, '
+                   'ArrayMaximalIndependentSet, NDArrayMap, NDArrayMap2, ArraySort, StreamZip, StreamZipJoin, StreamZipJoinProducers, '
+                   'StreamFlatMap, StreamScan (C36 only), StreamJoinRightDistinct, StreamFor, init-op arguments of ApplyAggOp, TableAggregate, '
+                   'MatrixAggregate, TableMapGlobals, TableMapPartitions, TableKeyByAndAggregate, TableAggregateByKey, TableGen, all MatrixIR '
+                   'and BlockMatrixIR nodes, randomness; AggGroupBy keys are int32 / bool (the model decides key equality for scalars only); '
                    'no statement about CSERenderer on node kinds outside the generated set, nor about the engine\'s parser or evaluator']
 
 
@@ -1604,9 +1643,23 @@ class C35(Prop):
         return {'bare': lambda: t, 'collect': lambda: ir.TableCollect(t), 'count': lambda: ir.TableCount(t),
                 'globals': lambda: ir.TableGetGlobals(t)}[rel['top']]()
 
+    def build_fold(self, case):
+        """(StreamAgg x stream (… (AggFold acc acc2 False zero seq_op comb_op) …)) as real hail.ir objects, all parts from ONE DAG"""
+        ir = self.ir
+        objs = self.build(case, all_objs=True)
+        f = case['fold']
+        fold = ir.AggFold(objs[f['zero']], objs[f['seq']], objs[f['comb']], 'acc', 'acc2', False)
+        q = fold if f.get('extra') is None else ir.ApplyBinaryPrimOp(f['op'], fold, objs[f['extra']])
+        if f.get('twice'):
+            q = ir.MakeTuple([q, objs[f['extra']]]) if f.get('extra') is not None else q
+        return ir.StreamAgg(objs[f['stream']], 'x', q)
+
     def render(self, case):
         key = json.dumps(case, sort_keys=True)
         r = self.cache.get(key)
+        if r is None and case.get('fold'):
+            root = self.build_fold(case)
+            r = self.cache[key] = (' '.join(self.CSERenderer()(root).split()), ' '.join(str(root).split()))
         if r is None and case.get('rel'):
             root = self.build_rel(case)
             r = self.cache[key] = (' '.join(self.CSERenderer()(root).split()), ' '.join(str(root).split()))
@@ -1664,9 +1717,37 @@ class C35(Prop):
         rel['top'] = rng.choice(['bare', 'bare', 'collect', 'count'] + (['globals'] if par else []))
         return {'nodes': nodes, 'root': root, 'free': {'g0': 'i32'}, 'envs': [], 'rel': rel}
 
+    def gen_fold_case(self, rng, size):
+        """hl.agg.fold: (StreamAgg x stream (AggFold acc acc2 False zero seq_op comb_op) [op extra]) — zero in the value scope, seq_op in
+        the aggregation scope + acc, comb_op with NOTHING but the two accumulators in scope; closed sub-expressions are generated first and
+        re-used inside comb_op, across seq_op and comb_op, and by the rest of the query"""
+        g = Gen(rng, share=rng.choice([0.55, 0.7, 0.85]), shadow=0.0, use_agg=False)
+        free = {n: ty for n, ty in GLOBALS.items() if ty == I32 and rng.random() < 0.5}
+        closed = Scope({}, None)
+        for _ in range(rng.choice([1, 2, 3])):
+            g.expr(I32, closed, rng.choice([1, 2]))          # closed material ("cap = hl.int32(7) * 3")
+        comb = g.fresh(I32, Scope({'acc': I32, 'acc2': I32}, None), max(size, 2))
+        seq = g.fresh(I32, Scope({**free, 'x': I32, 'acc': I32}, None), max(size, 2))
+        zero = g.expr(I32, Scope(dict(free), None), 1)
+        extra = g.expr(I32, Scope(dict(free), None), size) if rng.random() < 0.6 else None
+        stream = g.leaf(['stream', I32], Scope(dict(free), None))
+        roots = [zero, seq, comb, stream] + ([extra] if extra is not None else [])
+        top = g.add(['tuple', roots], ['tup', []], {}, {}, False)
+        nodes, root, _ = prune(g.nodes, top)
+        rs = list(nodes[root][1])
+        f = {'zero': rs[0], 'seq': rs[1], 'comb': rs[2], 'stream': rs[3], 'extra': rs[4] if extra is not None else None,
+             'op': rng.choice(['+', '*', '-']), 'twice': rng.random() < 0.3}
+        return {'nodes': nodes, 'root': root, 'free': free, 'envs': [], 'fold': f}
+
     def cases(self, rng, n, tier):
         made = 0
         while made < n:
+            if rng.random() < 0.06:
+                c = self.gen_fold_case(rng, rng.choice([2, 2, 3, 3]))
+                if len(c['nodes']) <= 160:
+                    made += 1
+                    yield c
+                continue
             if rng.random() < 0.12:
                 c = self.gen_rel_case(rng, rng.choice([1, 2, 2, 3, 3]))
                 if len(c['nodes']) <= 160:
@@ -1688,10 +1769,21 @@ class C35(Prop):
 
     def rel_parts(self, c):
         r, p = self.render(c)
+        if c.get('fold'):
+            # the AggFold is cut out: the rest (with the zero in its place) is validated as a whole; seq_op and comb_op are new blocks with
+            # their own scopes (`AggFold._compute_type`: seq_op in agg_env + accum; comb_op in {accum, other_accum} ONLY)
+            fr, fp = fold_parts(r), fold_parts(p)
+            if fr is None or fp is None:
+                return r, p, 'the rendering has no AggFold node', [], '-', '-'
+            free = sorted(c['free'])
+            kids = [('StreamAgg query with AggFold replaced by its zero', 0, free, fr[0], fp[0]),
+                    ('AggFold seq_op', 1, free + ['x', fp[3][0]], fr[1], fp[1]),
+                    ('AggFold comb_op', 2, list(fp[3]), fr[2], fp[2])]
+            return r, p, None, kids, '(AggFold ' + ' '.join(fr[3]) + ')', '(AggFold ' + ' '.join(fp[3]) + ')'
         return (r, p) + rel_walk(r, p)
 
     def model_lines(self, c):
-        if c.get('rel'):
+        if c.get('rel') or c.get('fold'):
             try:
                 r, p, prob, kids, sr, sp = self.rel_parts(c)
             except Exception as e:
@@ -1717,7 +1809,7 @@ class C35(Prop):
         return R, P, G
 
     def impl(self, c):
-        if c.get('rel'):
+        if c.get('rel') or c.get('fold'):
             try:
                 r, p, prob, kids, sr, sp = self.rel_parts(c)
             except Exception as e:
@@ -1751,7 +1843,7 @@ class C35(Prop):
             return 'the relational skeleton of the rendering differs from the tree: ' + sr[:200] + ' vs ' + sp[:200]
         for head, i, own, rc, pc in kids:
             R, P, G = read_ir(rc), read_ir(pc), frozenset(own)
-            where = f'value child {i} of {head} (the engine evaluates it with only {sorted(own) or "NOTHING"} in scope)'
+            where = (f'value child {i} of {head}' if c.get('rel') else head) + f' (the engine evaluates it with only {sorted(own) or "NOTHING"} in scope)'
             if not scope_ok(P, G, None):
                 return 'harness: the generated value child itself is ill-scoped ' + repr(unbound_refs(P, G, None, []))
             if not scope_ok(R, G, None):
@@ -1764,7 +1856,7 @@ class C35(Prop):
 
     def check(self, c):
         """the property on the real renderer's output -> None or message"""
-        if c.get('rel'):
+        if c.get('rel') or c.get('fold'):
             return self.check_rel(c)
         R, P, G = self.analyse(c)
         if not scope_ok(P, G, None):
@@ -1852,6 +1944,15 @@ class C35(Prop):
 
     # ---- distribution ---------------------------------------------------------------------------------------------
     def classify(self, c, out):
+        if c.get('fold'):
+            if not out or out[0] not in ('0', '1'):
+                return (None, ['renderer-raised' if out and out[0].startswith('render-exc') else 'impl-error'])
+            lifted = [0 if m.group(1) == '-' else len(m.group(1).split(',')) for m in (re.search(r'b=(\S+)', o) for o in out[1:]) if m]
+            tags = ['aggfold', 'aggfold-lifted-outside=%d' % min(lifted[0], 4), 'aggfold-lifted-in-seq_op=%d' % min(lifted[1], 4),
+                    'aggfold-lifted-in-comb_op=%d' % min(lifted[2], 4)]
+            self.stats['programs'] += 1
+            self.stats['verified'] += int(all(o.startswith('v=1') for o in out[1:]))
+            return (json.dumps(c, sort_keys=True) if sum(lifted) else None, tags)
         if c.get('rel'):
             if not out or out[0] not in ('0', '1'):
                 return (None, ['renderer-raised' if out and out[0].startswith('render-exc') else 'impl-error'])
@@ -1948,6 +2049,13 @@ class C35(Prop):
 
     # ---- shrinking ------------------------------------------------------------------------------------------------
     def shrink(self, c, fails):
+        if c.get('fold'):
+            cur = c
+            for upd in ({'extra': None}, {'twice': False}):
+                cand = dict(cur, fold=dict(cur['fold'], **upd))
+                if fails(cand):
+                    cur = cand
+            return cur
         if c.get('rel'):
             cur = c
             for fld in ('filt', 'glob'):
